@@ -23,6 +23,72 @@ def assume_cmp(field_adt, field, op, const, truth):
     return a
 
 
+def _const_key(e):
+    """Comparable identity of a constant-like expression: bool/int value or enum variant name."""
+    e = strip(e)
+    if e[0] == "const":
+        if e[1].get("variant"):
+            return "variant:" + e[1]["variant"]
+        if "int" in e[1]:
+            return "int:%s" % e[1]["int"]
+    if e[0] == "agg" and e[2] and not e[3]:
+        return "variant:" + e[2]
+    return None
+
+
+def alloc_liveness(prog):
+    """How rt::alloc::State records that an allocation was released, whatever the representation (a bool, an enum, ..):
+    (field, value at creation, value written by Allocation::drop) - read off the writers."""
+    adt = "rt::alloc::State"
+    dropk = "<rt::alloc::Allocation as std::ops::Drop>::drop"
+    for (a, f), ws in prog.writers().items():
+        if a != adt:
+            continue
+        dv = [_const_key(rv_expr(prog, w)) for w in ws if w["kind"] == "assign" and w.get("exact") and enclosing_fn(w["fn"]) == dropk]
+        cv = [_const_key(prog.fns[w["fn"]].body.expr_of_operand(w["op"])) for w in ws if w["kind"] == "construct"]
+        if dv and cv and len(set(dv)) == 1 and dv[0]:
+            live = [c for c in cv if c and c != dv[0]]
+            if live and len(set(live)) == 1:
+                return f, live[0], dv[0]
+    return None
+
+
+def assume_field_value(adt, field, value_key):
+    """PEval assumption: adt.field currently holds the constant `value_key` (see _const_key) - for a bare bool test, a
+    comparison with a constant, or a match on the discriminant."""
+    def a(body, b, t, e):
+        pol = True
+        while e[0] == "unop" and e[1] == "Not":
+            e = e[2]
+            pol = not pol
+        if is_field(e, adt, field) and value_key.startswith("int:"):
+            return switch_targets_for(t, (value_key != "int:0") == pol)
+        if e[0] == "call" and (e[1].endswith("PartialEq::eq") or e[1].endswith("PartialEq::ne")) and len(e[2]) == 2:
+            x, y = e[2]
+            if is_field(y, adt, field):
+                x, y = y, x
+            if is_field(x, adt, field):
+                d = strip(y)
+                # the other side may be a promoted constant / a reference to one
+                k = _const_key(d)
+                if k is not None:
+                    eq = (k == value_key)
+                    return switch_targets_for(t, (eq if e[1].endswith("::eq") else not eq) == pol)
+        if e[0] == "binop" and e[1] in ("Eq", "Ne") and is_field(e[2], adt, field):
+            k = _const_key(e[3])
+            if k is not None:
+                eq = (k == value_key)
+                return switch_targets_for(t, (eq if e[1] == "Eq" else not eq) == pol)
+        if e[0] == "discr" and is_field(e[1], adt, field) and value_key.startswith("variant:"):
+            names = dict((n, v) for (v, n) in (e[3] or []))
+            want = names.get(value_key[8:])
+            if want is not None:
+                tgt = [tb for (val, tb) in t["targets"] if val == want]
+                return {tgt[0] if tgt else t["otherwise"]}
+        return None
+    return a
+
+
 def K1(ctx):
     """Every iteration of Builder::check runs the leak scan between scheduler.run and execution.step."""
     prog = ctx.prog
@@ -105,8 +171,17 @@ def K3(ctx):
             ctx.bad("K3", fk, "the documented leak panic \"%s\" must exist for both location variants (found %d)" % (text, len(ps)), fn.loc(), detail="message")
             continue
         # leaked <=> panic: with the leak condition true no return; with it false no panic
-        leak_true = assume_cmp(adt, field, op, const, True if op else False)
-        leak_false = assume_cmp(adt, field, op, const, False if op else True)
+        if op is None:
+            lv = alloc_liveness(prog)
+            if lv is None:
+                ctx.missing("K3", fk, "cannot identify how an allocation is marked as released (a field of %s written by Allocation::drop)" % adt)
+                continue
+            field, live, dropped = lv
+            leak_true = assume_field_value(adt, field, live)
+            leak_false = assume_field_value(adt, field, dropped)
+        else:
+            leak_true = assume_cmp(adt, field, op, const, True)
+            leak_false = assume_cmp(adt, field, op, const, False)
         r_true, _ = PEval(body, leak_true).run()
         r_false, _ = PEval(body, leak_false).run()
         rets = set(body.return_blocks())
@@ -156,28 +231,34 @@ def K4_refcnt(ctx):
 
 
 def K4_alloc(ctx):
-    """Writers of Allocation.is_dropped and of the raw-allocation registry; rt bookkeeping paired with the std alloc/dealloc call."""
+    """Writers of the allocation's released-marker and of the raw-allocation registry; rt bookkeeping paired with the std alloc/dealloc call."""
     prog = ctx.prog
-    adt, field = "rt::alloc::State", "is_dropped"
+    adt = "rt::alloc::State"
+    lv = alloc_liveness(prog)
     n = 0
+    if lv is None:
+        ctx.missing("K4", adt, "cannot identify how an allocation is marked as released (a field written by Allocation::drop)")
+        field, live, dropped = "is_dropped", None, None
+    else:
+        field, live, dropped = lv
     for w in prog.writers().get((adt, field), []):
         fk = enclosing_fn(w["fn"])
         body = prog.fns[w["fn"]].body
         n += 1
         if w["kind"] == "construct":
             e = body.expr_of_operand(w["op"])
-            if fk in ("rt::alloc::alloc", "rt::alloc::Allocation::new") and e[0] == "const" and e[1].get("int") == 0:
+            if fk in ("rt::alloc::alloc", "rt::alloc::Allocation::new") and _const_key(e) == live:
                 ctx.ok("K4", fk + ":is_dropped", "tracked as live at creation", [site_str(prog, w["fn"], w["bb"])])
             else:
-                ctx.bad("K4", fk, "allocation must be created live (is_dropped = false) by alloc/Allocation::new", site_str(prog, w["fn"], w["bb"]), detail="is_dropped-init")
+                ctx.bad("K4", fk, "allocation must be created live by alloc/Allocation::new", site_str(prog, w["fn"], w["bb"]), detail="is_dropped-init")
         elif w["kind"] == "assign":
             e = body.expr_of_rvalue(w["stmt"]["rv"])
-            if fk == "<rt::alloc::Allocation as std::ops::Drop>::drop" and e[0] == "const" and e[1].get("int") == 1:
-                ctx.ok("K4", fk + ":is_dropped", "marked dropped only by Allocation::drop", [site_str(prog, w["fn"], w["bb"])])
+            if fk == "<rt::alloc::Allocation as std::ops::Drop>::drop" and _const_key(e) == dropped:
+                ctx.ok("K4", fk + ":is_dropped", "marked released only by Allocation::drop", [site_str(prog, w["fn"], w["bb"])])
             else:
-                ctx.bad("K4", fk, "is_dropped may only be set (to true) by Allocation::drop", site_str(prog, w["fn"], w["bb"]), detail="is_dropped")
+                ctx.bad("K4", fk, "an allocation may only be marked released by Allocation::drop", site_str(prog, w["fn"], w["bb"]), detail="is_dropped")
         else:
-            ctx.bad("K4", fk, "is_dropped mutably borrowed", site_str(prog, w["fn"], w["bb"]), detail="is_dropped-borrow")
+            ctx.bad("K4", fk, "the released-marker is mutably borrowed", site_str(prog, w["fn"], w["bb"]), detail="is_dropped-borrow")
     ctx.floor("K4-alloc", n, 3, "2 creations + Allocation::drop")
     # raw allocation registry
     for (fk, method) in (("rt::alloc::alloc::{closure#0}", "insert"), ("rt::alloc::dealloc::{closure#0}", "remove")):
